@@ -100,7 +100,9 @@ func (vc *VC) run() {
 				if d, ok := ins.(*ssa.Defer); ok {
 					if _, lit := d.Call.Value.(*ssa.MakeClosure); lit {
 						if mc := d.Call.Value.(*ssa.MakeClosure); !strings.HasSuffix(mc.Fn.Name(), "$bound") {
-							unsup("function defers a function literal (may recover)")
+							if why := deferredLiteralOK(mc); why != "" {
+								unsup("function defers a function literal that cannot be executed in place (%s)", why)
+							}
 						}
 					}
 				}
